@@ -135,7 +135,8 @@ var axisWeight = []int{10, 4, 2, 3, 2, 2, 4, 4, 2, 2, 6, 2}
 func isNameTest(t string) bool { return t != "*" && t != "text()" && t != "node()" }
 
 // step returns one location step (with predicates) and the flags of the nodes it selects.
-func (g *exprGen) step(c ctxFlags, depth int, afterDSlash bool) (string, ctxFlags) {
+func (g *exprGen) step(c ctxFlags, depth int, dsCtx *ctxFlags) (string, ctxFlags) {
+	afterDSlash := dsCtx != nil
 	r := g.r
 	var s, axis, test string
 	// mostly steps that can select something from the kind of node the context is (85%), the
@@ -212,9 +213,9 @@ func (g *exprGen) step(c ctxFlags, depth int, afterDSlash bool) (string, ctxFlag
 	if afterDSlash && axis == "child" {
 		// the engine compiles "//" + child step into one descendant-or-self query over the
 		// context node (build.go:72-98): the context node itself is a candidate
-		out.mayAttr = out.mayAttr || c.mayAttr
+		out.mayAttr = out.mayAttr || dsCtx.mayAttr
 		if test == "node()" {
-			out.mayRoot = c.mayRoot
+			out.mayRoot = dsCtx.mayRoot
 		}
 	}
 	if s == "." || s == ".." {
@@ -229,19 +230,33 @@ func (g *exprGen) step(c ctxFlags, depth int, afterDSlash bool) (string, ctxFlag
 // relPath returns a relative location path of n steps.
 func (g *exprGen) relPath(c ctxFlags, n, depth int, ds bool) (string, ctxFlags) {
 	var sb strings.Builder
+	// dsCtx: the previous step is a descendant-or-self step without predicate ("//" or written
+	// out, with ANY node test): the engine merges it with a following child step into one
+	// descendant-or-self query over ITS context (build.go:72-98), whose flags are *dsCtx
+	var dsCtx *ctxFlags
+	if ds {
+		c0 := c
+		dsCtx = &c0
+	}
 	for i := 0; i < n; i++ {
 		if i > 0 {
-			ds = g.r.Chance(0.2)
-			if ds {
-				sb.WriteString("//") // descendant-or-self::node(): flags unchanged
+			if g.r.Chance(0.2) {
+				sb.WriteString("//")
 				g.feat["abbrev-//"] = true
+				c0 := c
+				dsCtx = &c0
 			} else {
 				sb.WriteString("/")
 			}
 		}
+		before := c
 		var s string
-		s, c = g.step(c, depth, ds)
+		s, c = g.step(c, depth, dsCtx)
 		sb.WriteString(s)
+		dsCtx = nil
+		if strings.HasPrefix(s, "descendant-or-self::") && !strings.Contains(s, "[") {
+			dsCtx = &before
+		}
 	}
 	return sb.String(), c
 }
@@ -254,7 +269,9 @@ func (g *exprGen) path(c ctxFlags, depth int) (string, ctxFlags) {
 		n = 4
 	}
 	g.first = false
-	if !c.mayAttr {
+	// absolute paths from a possibly-attribute context only now and then: they make the
+	// evaluation depend on the repair of Q2
+	if !c.mayAttr || r.Chance(0.25) {
 		switch r.Pick(5) {
 		case 0:
 			g.feat["absolute"] = true
@@ -279,7 +296,7 @@ func (g *exprGen) path(c ctxFlags, depth int) (string, ctxFlags) {
 func (g *exprGen) valuePath(c ctxFlags, depth int) string {
 	for k := 0; k < 20; k++ {
 		s, f := g.path(c, depth)
-		if !f.mayRoot {
+		if !f.mayRoot || g.r.Chance(0.1) { // now and then: depends on the repair of Q1
 			return s
 		}
 	}
